@@ -178,3 +178,24 @@ B('c05-label-write-outside', 'C05', ALIGN, "        newobj.axes[axis][mask] = va
 N('c05-n-rename', 'C05', CLS, "inferred", "sizes", 'rename', all=True)
 N('c05-n-assert-to-raise', 'C05', CLS, "        assert [ax.size for ax in newaxes] == list(self.shape), \"shape mismatch\"", "        if [ax.size for ax in newaxes] != list(self.shape):\n            raise ValueError(\"shape mismatch\")", 'assert -> raise')
 N('c05-n-setter-order', 'C05', AXES, "        self._values = values\n        self._monotonic = None\n", "        self._monotonic = None\n        self._values = values\n        self._monotonic = None\n", 'extra reset before')
+
+# ------------------------------------------------------------------------------- C06
+B('c06-F3-sort-inplace', ['C06'], ALIGN, "            ax = ax.copy() # the common axis may be an input's own Axis object: do not sort it in place\n", "", 'reintroduce F3')
+B('c06-invert-dropped', 'C06', AXES, "np.isin(other.values, self.values, invert=True)", "np.isin(other.values, self.values)", 'union keeps only the intersection of other')
+B('c06-isin-swapped', 'C06', AXES, "            not_in_self = np.isin(other.values, self.values, invert=True)", "            not_in_self = np.isin(self.values, other.values, invert=True)", 'mask computed over the wrong array')
+B('c06-union-dup', 'C06', AXES, "            joined = np.concatenate((self.values, other.values[not_in_self]))", "            joined = np.concatenate((self.values, other.values))", 'labels in both appear twice')
+B('c06-union-loses-self', 'C06', AXES, "            joined = np.concatenate((self.values, other.values[not_in_self]))", "            joined = np.concatenate((other.values[not_in_self],))", 'labels of self lost')
+B('c06-intersection-other-order', 'C06', AXES, "        newval = self.values[in_other]\n", "        newval = oth\n", 'intersection in the order of other')
+B('c06-intersection-not-restricted', 'C06', AXES, "        in_other = np.isin(self.values, oth)\n        newval = self.values[in_other]", "        in_other = np.isin(self.values, self.values)\n        newval = self.values[in_other]", 'intersection returns all of self')
+B('c06-inner-outer-swapped', 'C06', ALIGN, "    if join == 'outer':\n        com_axis = ax0.union(ax1)\n    else:\n        com_axis = ax0.intersection(ax1)", "    if join != 'outer':\n        com_axis = ax0.union(ax1)\n    else:\n        com_axis = ax0.intersection(ax1)", '')
+B('c06-fold-skips', 'C06', ALIGN, "    ax1 = _common_axis(axes[1:],join)", "    ax1 = _common_axis(axes[-1:],join)", 'fold skips the middle inputs')
+B('c06-list-copy-removed', ['C06', 'C15'], ALIGN, "    arrays = [a for a in arrays] # convert to list\n    for i, a in enumerate(arrays):\n        if not isinstance(a, DimArray) and not isinstance(a, Dataset):", "    for i, a in enumerate(arrays):\n        if not isinstance(a, DimArray) and not isinstance(a, Dataset):", 'caller list modified')
+B('c06-skip-guard', 'C06', ALIGN, "            if ax.name not in o.dims: \n                continue\n            if np.all(o.axes[ax.name] == ax):", "            if np.all(o.axes[ax.name] == ax):", 'arrays lacking the dim are reindexed')
+B('c06-loop-swap', ['C06', 'C04'], ALIGN, "    for ax in axes:\n        for i, o in enumerate(arrays):\n            if ax.name not in o.dims: \n                continue\n            if np.all(o.axes[ax.name] == ax):\n                continue\n            arrays[i] = o.reindex_axis(ax)", "    for i, o in enumerate(arrays):\n        for ax in axes:\n            if ax.name not in o.dims: \n                continue\n            if np.all(o.axes[ax.name] == ax):\n                continue\n            arrays[i] = o.reindex_axis(ax)", 'seeded C04-1: stale alias')
+B('c06-sort-reverse', 'C06', ALIGN, "            ax.sort()\n", "            ax.sort(kind='stable')\n", 'sort called with arguments')
+B('c06-axis-copy-shallow', ['C06', 'C15'], AXES, "        return copy.deepcopy(self) # deep copy: everything in the definition is copied", "        ax = Axis(self._values, self.name, tol=self._tol, **self._attrs)\n        ax._monotonic = self._monotonic\n        return ax", 'seeded C06-1')
+B('c06-join-not-forwarded', 'C06', ALIGN, "    axes = _get_aligned_axes(arrays, axis=axis, join=join, sort=sort, strict=strict)", "    axes = _get_aligned_axes(arrays, axis=axis, sort=sort, strict=strict)", 'inner join ignored')
+B('c06-monotonic-reverse-dropped', 'C06', AXES, "np.union1d(self.values, other.values)", "np.intersect1d(self.values, other.values)", 'sorted branch computes the intersection')
+N('c06-n-rename', 'C06', AXES, "not_in_self", "extra", 'rename', all=True)
+N('c06-n-loop-var', 'C06', ALIGN, "    for ax in axes:\n        for i, o in enumerate(arrays):\n            if ax.name not in o.dims: \n                continue\n            if np.all(o.axes[ax.name] == ax):\n                continue\n            arrays[i] = o.reindex_axis(ax)", "    for common in axes:\n        for k, arr in enumerate(arrays):\n            if common.name not in arr.dims: \n                continue\n            if np.all(arr.axes[common.name] == common):\n                continue\n            arrays[k] = arr.reindex_axis(common)", 'rename loop variables')
+N('c06-n-list-call', 'C06', ALIGN, "    arrays = [a for a in arrays] # convert to list", "    arrays = list(arrays) # convert to list", 'list() instead of comprehension')
